@@ -6,6 +6,7 @@ import (
 	"encoding/json"
 	"fmt"
 	"io"
+	"reflect"
 	"sync"
 
 	"github.com/rs/zerolog"
@@ -140,17 +141,22 @@ func (c *ToxicCollection) UpdateToxicJson(
 
 	toxic := c.findToxicByName(name)
 	if toxic != nil {
+		// Decode into a copy of the toxic and swap it in only on success, so that a
+		// rejected body (a type error in a later field) leaves the toxic untouched.
+		updated := reflect.New(reflect.TypeOf(toxic.Toxic).Elem())
+		updated.Elem().Set(reflect.ValueOf(toxic.Toxic).Elem())
 		attrs := &struct {
 			Attributes interface{} `json:"attributes"`
 			Toxicity   float32     `json:"toxicity"`
 		}{
-			toxic.Toxic,
+			updated.Interface(),
 			toxic.Toxicity,
 		}
 		err := json.NewDecoder(data).Decode(attrs)
 		if err != nil {
 			return nil, joinError(err, ErrBadRequestBody)
 		}
+		toxic.Toxic = updated.Interface().(toxics.Toxic)
 		toxic.Toxicity = attrs.Toxicity
 
 		c.chainUpdateToxic(toxic)
